@@ -21,6 +21,10 @@ impl Ipv4Address {
 
         let mut bytes = [0u8; 4];
         for (i, part) in parts.iter().enumerate() {
+            // decimal digits only (parse would also take a sign)
+            if part.is_empty() || !part.bytes().all(|b| b.is_ascii_digit()) {
+                return Err("Invalid IPv4 address format");
+            }
             match part.parse::<u8>() {
                 Ok(value) => bytes[i] = value,
                 _ => return Err("Invalid IPv4 address format"),
